@@ -3,6 +3,6 @@
 # each in a private scratch worktree (VERIF_REPO); writes seeded/RESULTS_<tier>.txt (rc=1 with VIOLATION lines means caught)
 TIER="${1:-quick}"; J="${2:-3}"
 cd /verif
-ls -d seeded/*/ | sed 's#/$##' | xargs -P "$J" -I{} sh -c 'd={}; p=$(python3 -c "import json,sys; m=json.load(open(\"/verif/$d/meta.json\")); print(\" \".join(m.get(\"checks\") or [\"$(basename $d | cut -d- -f1)\"]))"); VERIF_JOBS=5 /verif/tools/try_seed_wt.sh /verif/$d/patch.diff '"$TIER"' $p 2>&1 | cut -c1-420' > /tmp/seed_results_$TIER.txt 2>&1
+ls -d seeded/*/ | sed 's#/$##' | xargs -P "$J" -I{} sh -c 'd={}; p=$(python3 -c "import json,sys; m=json.load(open(\"/verif/$d/meta.json\")); print(\" \".join(m.get(\"checks\") or [\"$(basename $d | cut -d- -f1)\"]))"); VERIF_JOBS=3 /verif/tools/try_seed_wt.sh /verif/$d/patch.diff '"$TIER"' $p 2>&1 | cut -c1-420' > /tmp/seed_results_$TIER.txt 2>&1
 sort /tmp/seed_results_$TIER.txt | sed 's#/verif/seeded/##; s#/patch.diff##' > /verif/seeded/RESULTS_$TIER.txt
 grep -c "rc=1" /verif/seeded/RESULTS_$TIER.txt
